@@ -24,6 +24,9 @@ def handle (st : DState) (line : String) : DState × String :=
           let bs ← fromHex (cs.map Char.ofNat)
           decodeNats bs))
       | none => (st, "bad-op")
+    | "decblk" => match parseNats args with
+      | some [a, b] => (st, decBlock a b)
+      | _ => (st, "bad-op")
     | "wf" => match parseInts args with
       | some xs => (st, if wellFormed xs then "1" else "0")
       | none => (st, "bad-op")
